@@ -8,6 +8,12 @@ over the translated `__eq__` methods by the class of the receiver, exactly like 
 `!=` is `not ==` for every class involved (none of `Tag`, `TagList`, `HTMLDependency`, `UserString`, `UserList` defines
 `__ne__`, so `object.__ne__` inverts `__eq__`; for the built-in kinds the two are complementary).
 
+Views: `Tag.__repr__`, `Tag._repr_html_`, `TagList.__repr__`, `TagList._repr_html_` (each `return str(self)`; `str(x)` is the
+primitive `pyStr` of Py/Prim.lean).  `Tag.__str__` / `TagList.__str__` / `_render_tag_or_taglist` are NOT registered: they
+call `x.render()` (→ `tagify()`, `get_dependencies()`: not translated here), read the module global
+`html_dependency_render_mode` at call time (`from . import …`: `Globals` does not carry it) and, in "json" mode, call
+`serialize_to_script_json()` (→ `json.dumps`: outside the fragment).
+
 New syntax (hooks; anything else in these functions goes through the ordinary translator):
   isinstance(y, type(x))      -> isInstanceTypeOf y x
   x.__dict__                  -> pyObjDict x
@@ -29,6 +35,13 @@ def register(T):
         T.FnSpec(F, "TagList.__eq__", "TagList_eq", group="eq"),
         T.FnSpec(F, "HTMLDependency.__eq__", "HTMLDependency_eq", group="eq"),
     ]
+    T.SPECS += [
+        T.FnSpec(F, "Tag.__repr__", "Tag_repr"),
+        T.FnSpec(F, "Tag._repr_html_", "Tag_repr_html"),
+        T.FnSpec(F, "TagList.__repr__", "TagList_repr"),
+        T.FnSpec(F, "TagList._repr_html_", "TagList_repr_html"),
+    ]
+    T.ARITY.update({"Tag_repr": 1, "Tag_repr_html": 1, "TagList_repr": 1, "TagList_repr_html": 1})
     T.ARITY.update({"equals_impl": 2, "Tag_eq": 2, "TagList_eq": 2, "HTMLDependency_eq": 2})
     if "HtmlVerif.Py.PrimC08" not in T.IMPORTS:
         T.IMPORTS.append("HtmlVerif.Py.PrimC08")
